@@ -134,3 +134,19 @@ Theorem C03_idle_insertion_invisible : forall env requestor maxlen (ops1 ops2 : 
   run_script env requestor maxlen (ops1 ++ Idle :: ops2) = run_script env requestor maxlen (ops1 ++ ops2).
 Proof. exact idle_insertion_invisible. Qed.
 Print Assumptions C03_idle_insertion_invisible.
+
+(* the premises are met: an established association (Sta6) with the first three bytes of the peer's next PDU in the
+   buffer is a quiet state reached by a legal script; and two histories of the control model that differ only in idle
+   iterations have the same non-empty outputs *)
+Example C03_quiet_state_exists :
+  let s := run_script (mkdenv [] [] [1] []) false 65536 ex_ops in
+  quiet_all s = true /\ c_st (ctl s) = 6 /\ raw s = [4; 0; 0] /\ length (wire s) = 1%nat /\ length (given s) = 1%nat
+  /\ forallb legal_op ex_ops = true.
+Proof. exact quiet_in_sta6. Qed.
+
+Example C03_idle_histories_example :
+  let h1 := [idle; pdu_in Fsm.KRq; usr_in Fsm.KAc; pdu_in KRelRq; usr_in KRelRp] in
+  let h2 := [idle; idle; pdu_in Fsm.KRq; idle; idle; idle; usr_in Fsm.KAc; idle; pdu_in KRelRq; idle; idle; usr_in KRelRp; idle] in
+  strip (init false) h1 = strip (init false) h2 /\ trace (init false) h1 = trace (init false) h2
+  /\ trace (init false) h1 <> [].
+Proof. exact stutter_example. Qed.
